@@ -286,21 +286,22 @@ func scribble(b []byte) {
 	}
 }
 
-// SetattrOne sets exactly one attribute that the reference does not model (atime, mtime, mode or owner).  Like
-// every successful SETATTR it is a stable acknowledgement: everything acknowledged before it is durable afterwards.
+// SetattrOne sets exactly one of the times (the reference does not model them).  It changes the object, so like
+// every successful modifying request it is a stable acknowledgement: everything acknowledged before it is durable
+// afterwards.  (Mode and owner are not used: this server accepts and ignores them, and a request that changes
+// nothing need not flush anything.)
 func (x *Exec) SetattrOne(r Ref, which int) error {
 	var a nt.Sattr3
-	switch which % 4 {
+	switch which % 3 {
 	case 0:
 		a.Atime = nt.Set_atime{Set_it: nt.SET_TO_CLIENT_TIME, Atime: nt.Nfstime3{Seconds: 5000000 + nt.Uint32(len(x.Log)), Nseconds: 3}}
 	case 1:
 		a.Mtime = nt.Set_mtime{Set_it: nt.SET_TO_CLIENT_TIME, Mtime: nt.Nfstime3{Seconds: 6000000 + nt.Uint32(len(x.Log)), Nseconds: 4}}
-	case 2:
-		a.Mode = nt.Set_mode3{Set_it: true, Mode: nt.Mode3(0400 + len(x.Log)%64)}
 	default:
-		a.Atime = nt.Set_atime{Set_it: nt.SET_TO_SERVER_TIME}
+		a.Atime = nt.Set_atime{Set_it: nt.SET_TO_CLIENT_TIME, Atime: nt.Nfstime3{Seconds: 7000000 + nt.Uint32(len(x.Log)), Nseconds: 5}}
+		a.Mtime = nt.Set_mtime{Set_it: nt.SET_TO_CLIENT_TIME, Mtime: nt.Nfstime3{Seconds: 8000000 + nt.Uint32(len(x.Log)), Nseconds: 6}}
 	}
-	x.logf("SETATTR %s (%s only)", r.Desc, []string{"atime", "mtime", "mode", "atime=now"}[which%4])
+	x.logf("SETATTR %s (%s only)", r.Desc, []string{"atime", "mtime", "atime and mtime"}[which%3])
 	var res nt.SETATTR3res
 	if err := x.call(func() { res = x.S.API().NFSPROC3_SETATTR(nt.SETATTR3args{Object: r.fh(), New_attributes: a}) }); err != nil {
 		return err
@@ -375,11 +376,15 @@ func (x *Exec) Setattr(r Ref, size *uint64, touch bool) error {
 			res.Status, before.Resok.Obj_attributes, after.Status, after.Resok.Obj_attributes)
 	}
 	if want && x.LastOK {
+		// Only a request that changes something is a stable acknowledgement that makes what came before durable: a
+		// size equal to the current one, or mode/owner alone (accepted and ignored by this server), change nothing,
+		// and a request that changes nothing need not flush anything.
+		changes := (size != nil && *size != r.N.Size) || a.Atime.Set_it != nt.DONT_CHANGE || a.Mtime.Set_it != nt.DONT_CHANGE
 		if size != nil {
 			r.N.Truncate(*size)
 			x.Mutations++
 		}
-		if size != nil || touch {
+		if changes {
 			x.Unflushed = false
 		}
 		if res.Resok.Obj_wcc.After.Attributes_follow {
